@@ -298,13 +298,31 @@ type srvRun struct {
 	limit    int
 	sizeViol bool
 	viol     []string
+	// micro control: when armed, the event loop is held inside the trace sink at its next "req" message until thaw()
+	freezeArmed int32
+	frozen      int32
+	freeze      chan struct{}
+}
+
+func (sr *srvRun) armFreeze() { atomic.StoreInt32(&sr.freezeArmed, 1) }
+func (sr *srvRun) thaw() {
+	if atomic.LoadInt32(&sr.frozen) == 1 {
+		atomic.StoreInt32(&sr.frozen, 0)
+		sr.freeze <- struct{}{}
+	}
 }
 
 var extNames = map[int]string{1: "mvt", 2: "png", 3: "jpg", 4: "webp", 5: "avif", 9: "bin"}
 
 func newSrvRun(cacheMB int) *srvRun {
-	sr := &srvRun{gate: newGate(), current: map[int]*srvVersion{}, history: map[int][]struct{ step, vid int }{}}
+	sr := &srvRun{gate: newGate(), current: map[int]*srvVersion{}, history: map[int][]struct{ step, vid int }{}, freeze: make(chan struct{})}
 	pmtiles.VerifSetTraceSink(func(s string) { // the values the loop writes to the cache gauges
+		if strings.HasPrefix(s, "req ") && atomic.CompareAndSwapInt32(&sr.freezeArmed, 1, 0) {
+			atomic.StoreInt32(&sr.frozen, 1)
+			atomic.AddInt64(&sr.gate.activity, 1)
+			<-sr.freeze // the loop goroutine waits here: nothing is taken from the request channel meanwhile
+			atomic.AddInt64(&sr.gate.activity, 1)
+		}
 		var v int
 		sr.traceMu.Lock()
 		if _, err := fmt.Sscanf(s, "stat limit %d", &v); err == nil {
